@@ -579,8 +579,13 @@ func (ef *errFlow) checkFatal(l *Ledger, rule string, fn *ssa.Function, call *ss
 func (ef *errFlow) checkResultLike(fn *ssa.Function, e ssa.Value, src string) []string {
 	var problems []string
 	tested := false
+	visited := map[ssa.Value]bool{}
 	var visit func(v ssa.Value)
 	visit = func(v ssa.Value) {
+		if visited[v] {
+			return
+		}
+		visited[v] = true
 		for _, ref := range *v.Referrers() {
 			switch r := ref.(type) {
 			case *ssa.BinOp:
